@@ -1,2 +1,108 @@
-(* C26 — placeholder while the harness is brought up *)
-From WK Require Import Base.Base Model.C26Case.
+(* C26 — Node transport frames and RPC responses are correctly correlated.
+   Only statements, each closed by [exact] of a lemma from Proof/*.v.
+   Part (a): wire header codec, ReadFrame, WriteFrames (Model/Wire.v). *)
+From WK Require Import Base.Base Base.Bytes Gen.Consts_C26 Model.Wire Model.C26Case.
+From WK Require Import Proof.Wire Proof.Wire_monitor.
+Open Scope N_scope.
+
+(* ---- (a) every frame header round-trips ---------------------------------- *)
+
+(* a header with a known kind and priority, field values in their Go types'
+   ranges and BodyLen <= max decodes to itself from its 24-byte encoding,
+   whatever follows it on the wire *)
+Theorem c26_header_roundtrip : forall h rest max, header_ok h max = true ->
+  decode_header (encode_header h ++ rest) max = WOk h.
+Proof. exact header_roundtrip. Qed.
+Print Assumptions c26_header_roundtrip.
+
+(* DecodeHeader after EncodeHeader is exactly the outbound validation, for every header *)
+Theorem c26_decode_encode : forall h rest max, header_in_domain h = true ->
+  decode_header (encode_header h ++ rest) max =
+  match validate_outbound_header h max with Some e => WErr e | None => WOk h end.
+Proof. exact decode_encode. Qed.
+Print Assumptions c26_decode_encode.
+
+(* the other direction: whatever DecodeHeader accepts is the encoding of what it
+   returns (no two distinct 24-byte headers decode to the same Header) *)
+Theorem c26_accepted_is_encoding : forall enc max h, all_bytes enc = true ->
+  decode_header enc max = WOk h -> firstn header_size enc = encode_header h.
+Proof. exact decode_ok_is_encoding. Qed.
+Print Assumptions c26_accepted_is_encoding.
+
+(* ---- (a) malformed headers are rejected ----------------------------------- *)
+
+(* bad magic, version, flags, reserved bits, kind, priority, oversize body (or a
+   short buffer) => a validation error, never a header *)
+Theorem c26_reject : forall enc max, hdr_malformed enc max = true ->
+  exists e, decode_header enc max = WErr e /\ validation_error e = true.
+Proof. exact malformed_rejected. Qed.
+Print Assumptions c26_reject.
+
+(* and only those are rejected *)
+Theorem c26_accept_iff_wellformed : forall enc max,
+  (exists h, decode_header enc max = WOk h) <-> hdr_malformed enc max = false.
+Proof.
+  intros enc max. split.
+  - intros [h D]. exact (decode_ok_wellformed enc max h D).
+  - exact (wellformed_accepted enc max).
+Qed.
+Print Assumptions c26_accept_iff_wellformed.
+
+(* ---- (a) ... before the body is allocated ---------------------------------- *)
+
+(* ReadFrame reaches the body allocator only with the BodyLen of a header that
+   passed every check; that length is within [0, max] *)
+Theorem c26_validate_before_alloc : forall stream max n,
+  ro_alloc (read_frame stream max) = Some n ->
+  exists h, decode_header (firstn header_size stream) max = WOk h /\ n = h_bodylen h
+            /\ body_exceeds_max n max = false /\ (0 <= max)%Z /\ (Z.of_N n <= max)%Z.
+Proof. exact read_alloc_validated. Qed.
+Print Assumptions c26_validate_before_alloc.
+
+(* a header that fails validation ends ReadFrame right after the 24 header
+   bytes: no allocation, no byte of the body consumed *)
+Theorem c26_rejected_header_stops_reader : forall stream max e,
+  ro_res (read_frame stream max) = WErr e -> validation_error e = true ->
+  ro_alloc (read_frame stream max) = None /\ ro_consumed (read_frame stream max) = HeaderSize.
+Proof. exact read_validation_error. Qed.
+Print Assumptions c26_rejected_header_stops_reader.
+
+(* ---- (a) frames round-trip through WriteFrames / ReadFrame ------------------ *)
+
+Theorem c26_frames_roundtrip : forall fs max b rest, forallb frame_in_domain fs = true ->
+  write_frames fs max = WOk b ->
+  read_frames (length fs) (b ++ rest) max = written_frames fs.
+Proof. exact write_read_roundtrip. Qed.
+Print Assumptions c26_frames_roundtrip.
+
+(* ---- the monitor of part (a) accepts every trace of the model -------------- *)
+
+Theorem c26_wire_model_satisfies_monitor :
+  (forall enc max, all_bytes enc = true ->
+     C26_monitor (C26Dec enc max (decode_header enc max) (reenc_of (decode_header enc max))) = 0)
+  /\ (forall h max, header_in_domain h = true ->
+     C26_monitor (C26Enc h max (encode_header h) (decode_header (encode_header h) max)) = 0)
+  /\ (forall stream max, all_bytes stream = true ->
+     let o := read_frame stream max in
+     C26_monitor (C26Read stream max (ro_res o) (ro_consumed o) (ro_beyond o) (ro_alloc_over o)
+                          (reenc_of_hb (ro_res o))) = 0)
+  /\ (forall fs max, forallb frame_in_domain fs = true ->
+     C26_monitor (C26Write fs max (write_frames fs max)
+        (match write_frames fs max with WOk b => read_frames (length fs) b max | WErr _ => [] end)) = 0).
+Proof.
+  repeat split; intros; cbn [C26_monitor].
+  - rewrite mon_dec_model by assumption. reflexivity.
+  - rewrite mon_enc_model by assumption. reflexivity.
+  - rewrite mon_read_model by assumption. reflexivity.
+  - rewrite mon_write_model by assumption. reflexivity.
+Qed.
+Print Assumptions c26_wire_model_satisfies_monitor.
+
+(* non-vacuity *)
+Example c26_example_header :
+  let h := Header FrameKindRPCRequest PriorityRPC 7 42 5 in
+  header_ok h 64 = true
+  /\ encode_header h = hx "574b010003030007000000000000002a0000000500000000"
+  /\ decode_header (encode_header h) 4 = WErr ETooLarge
+  /\ hdr_malformed (hx "574b020003030007000000000000002a0000000500000000") 64 = true.
+Proof. vm_compute. repeat split; reflexivity. Qed.
